@@ -128,7 +128,7 @@ template <class F> static void forkRun(F body) {
     }
 }
 
-static void runCase(long k, const char *tagIn, const vs::Scene &s, const std::vector<ConnSpec> &conns, const Cfg &cfg) {
+static void runCase(long k, const char *tagIn, const vs::Scene &s, const std::vector<ConnSpec> &conns, const Cfg &cfg, const char *genLine = nullptr) {
     // Finding classes get their own tag (classes are kept disjoint by the generator):
     //   naive-vis-collinear / lee-collinear : polyline routing on a scene with three collinear graph points
     //   orth-nudge-endsegs                  : pure orthogonal router with nudgeOrthogonalSegmentsConnectedToShapes
@@ -142,6 +142,7 @@ static void runCase(long k, const char *tagIn, const vs::Scene &s, const std::ve
     else if (orthEndpointInBBox(s, conns, cfg.buffer)) tag = "orth-endpoint-in-bbox";
     vh::beginCase(k, tag.c_str());
     // ---- inputs
+    if (genLine) printf("%s\n", genLine);
     printf("cfg poly %d orth %d lee %d ignoreRegions %d invis %d\n", cfg.allowPoly, cfg.allowOrth, cfg.lee, cfg.ignoreRegions, cfg.invis);
     for (int i = 0; i < lastRoutingParameterMarker; ++i) if (cfg.paramSet[i]) printf("param %s %s\n", paramName[i], vh::hx(cfg.param[i]).c_str());
     for (int i = 0; i < lastRoutingOptionMarker; ++i) if (cfg.option[i] >= 0) printf("option %s %d\n", optionName[i], cfg.option[i]);
@@ -545,6 +546,80 @@ int main(int argc, char **argv) {
             forkRun([&]() { histBody(sd, kb, step, s, cs, cfg, ops, true); });
             vh::endCase();
         }
+    }
+    // ---- touching clusters (default algorithm; the scenes contain collinear triples, so runCase tags them lee-collinear;
+    //      the `gen touching-cluster` line keeps them countable).  A cluster is grown from one rectangle: each further
+    //      rectangle is attached to a random side of a random member so that the two share a piece of boundary of positive
+    //      length - its corners then lie in the MIDDLE of the neighbour's side, on its corner, or its sides continue the
+    //      neighbour's sides (collinear edges); interior-disjoint by rejection.  The creation order (= shape id order, which
+    //      is the order in which processTransaction() sweeps) is a random permutation, so every relative order of "crossed
+    //      shape / the two touching neighbours" occurs.  With a buffer the shapes are shrunk so that their ROUTING polygons
+    //      are the touching rectangles.  Coordinates are multiples of 1/2: the scenes are exact, the Lee model applies.
+    long ntouch = (thorough ? 400 : 90) * a.scale;
+    for (long c = 0; c < ntouch; ++c, ++k) {
+        if (!a.want(k)) continue;
+        // own mixing: caseRng(seed, k) and caseRng(seed, k + 1) are the same splitmix sequence shifted by one draw
+        vh::Rng r(vh::caseRng(a.seed, k, 41).next() * 0xBF58476D1CE4E5B9ull + (uint64_t) k);
+        Cfg cfg; cfg.ignoreRegions = r.coin(3, 4); cfg.invis = r.coin(3, 4);
+        if (r.coin(1, 5)) setParam(cfg, segmentPenalty, r.coin() ? 5 : 50);
+        double buffer = r.coin(1, 4) ? (r.coin() ? 1.0 : 0.5) : 0.0;
+        if (buffer > 0) { cfg.buffer = buffer; setParam(cfg, shapeBufferDistance, buffer); }
+        struct IR { long x0, y0, x1, y1; };
+        std::vector<IR> rs;
+        long U = r.range(1, 3);                                     // units of 1/2, 1, 3/2
+        long bw = r.range(2, 8), bh = r.range(2, 8);
+        rs.push_back({0, 0, bw, bh});
+        int want = (int) r.range(3, 7);
+        for (int tries = 0; tries < 200 && (int) rs.size() < want; ++tries) {
+            // the first two neighbours are attached to the first rectangle (so that it has neighbours on two sides often)
+            const IR R = rs[rs.size() < 3 ? 0 : (size_t) r.range(0, (long) rs.size() - 1)];
+            long w = r.range(1, 6), h = r.range(1, 6);
+            int side = (int) r.range(0, 3);
+            IR N;
+            if (side < 2) {         // left / right: y-ranges overlap with positive length
+                long ny0 = r.range(R.y0 - h + 1, R.y1 - 1);
+                if (r.coin(1, 4)) ny0 = R.y0; else if (r.coin(1, 4)) ny0 = R.y1 - h;            // collinear bottom / top edges
+                N = side == 0 ? IR{R.x0 - w, ny0, R.x0, ny0 + h} : IR{R.x1, ny0, R.x1 + w, ny0 + h};
+            } else {                // below / above
+                long nx0 = r.range(R.x0 - w + 1, R.x1 - 1);
+                if (r.coin(1, 4)) nx0 = R.x0; else if (r.coin(1, 4)) nx0 = R.x1 - w;
+                N = side == 2 ? IR{nx0, R.y0 - h, nx0 + w, R.y0} : IR{nx0, R.y1, nx0 + w, R.y1 + h};
+            }
+            bool ok = true;
+            for (auto &q : rs) if (N.x0 < q.x1 && q.x0 < N.x1 && N.y0 < q.y1 && q.y0 < N.y1) ok = false;    // open boxes meet
+            if (ok) rs.push_back(N);
+        }
+        long mx = 0, my = 0;
+        for (auto &q : rs) { mx = std::min(mx, q.x0); my = std::min(my, q.y0); }
+        r.shuffle(rs);                                              // creation order
+        vs::Scene s; s.W = 0; s.H = 0;
+        double hu = (double) U / 2.0;
+        bool thin = false;
+        for (auto &q : rs) {
+            double x0 = (double) (q.x0 - mx + 2) * hu, y0 = (double) (q.y0 - my + 2) * hu, x1 = (double) (q.x1 - mx + 2) * hu, y1 = (double) (q.y1 - my + 2) * hu;
+            if (x1 - x0 <= 2 * buffer || y1 - y0 <= 2 * buffer) thin = true;
+            s.shapes.push_back(vs::rectD(x0 + buffer, y0 + buffer, x1 - buffer, y1 - buffer)); s.isRect.push_back(true);
+            s.W = std::max(s.W, (long) std::ceil(x1) + 2); s.H = std::max(s.H, (long) std::ceil(y1) + 2);
+        }
+        if (thin) {                 // a rectangle too thin for this buffer: use the scene unbuffered
+            for (size_t i = 0; i < s.shapes.size(); ++i) {
+                vs::DPoly &p = s.shapes[i];
+                p = vs::rectD(p[3].x - buffer, p[3].y - buffer, p[1].x + buffer, p[1].y + buffer);
+            }
+            buffer = 0; cfg.buffer = 0; cfg.paramSet[shapeBufferDistance] = false;
+        }
+        std::vector<vs::DPoly> rp = vs::routingPolys(s, cfg.buffer);
+        std::vector<ConnSpec> cs;
+        int nconn = (int) r.range(1, 3);
+        for (int i = 0; i < nconn; ++i) {
+            ConnSpec cn; cn.id = 101 + i; cn.orth = false;
+            bool okc = r.coin(1, 2) ? (vs::hugPoint(r, s, rp, 0.125, cn.sx, cn.sy) && vs::hugPoint(r, s, rp, 0.125, cn.dx, cn.dy))
+                                    : (vs::freePoint(r, s, rp, 0.125, cn.sx, cn.sy, true) && vs::freePoint(r, s, rp, 0.125, cn.dx, cn.dy, true));
+            if (!okc || (cn.sx == cn.dx && cn.sy == cn.dy)) continue;
+            cs.push_back(cn);
+        }
+        if (cs.empty()) { vh::beginCase(k, "empty"); vh::endCase(); continue; }
+        runCase(k, "poly-lee-touching", s, cs, cfg, "gen touching-cluster");
     }
     return 0;
 }
